@@ -41,7 +41,7 @@ def teardown(ctx):
 def run_case(ctx, kind, rng, idx):
     from vf.monitor import Frozen
     from vf.props.c07 import gen_sets
-    T, pi = mc.reversible_chain(rng, nmin=3, nmax=30)
+    T, pi = mc.reversible_chain(rng, nmin=2, nmax=30)
     n = len(T)
     src, snk = gen_sets(rng, n)
     give_pops = bool(rng.random() < 0.5)
